@@ -20,7 +20,7 @@ PROPERTY = 'C19'
 RULE = ('3-node designs: all 5^3 assignments of the edge profiles {large +, large -, small +, no effect, constant} (6^3 with '
         '"constant difference" for the paired design), group sizes (2,2),(2,3),(3,2) unpaired and (3,3) paired, threshold in '
         '{0.5, 3} and a threshold exactly equal to an attained statistic (profile with t = 2.0), tail in {both,left,right}; k=1 with the full relabelling menu (24 / 120 orders, 8 sign patterns), k=2 for '
-        '(2,2) on a subset, 6-7 node designs with three observed components, 9-node two-component designs (thorough: 4-node designs on a fixed profile set); data also multiplied by 2^-60 and 2^60; subject stacks also as uint16 / int16 / uint8 / int64 arrays on integer-valued profiles; non-trivial = configuration with at least one '
+        '(2,2) on a subset, 6-7 node designs with three observed components, 9-node two-component designs (thorough: 4-node designs on a fixed profile set); data also multiplied by 2^-60 and 2^60; a NaN measurement on one connection; subject stacks also as uint16 / int16 / uint8 / int64 arrays on integer-valued profiles; non-trivial = configuration with at least one '
         'observed component (not rejected as "unsuitable threshold") and >= 2 distinct null values over the relabellings')
 ASSUMPTIONS = ['t statistics re-derived from their definitions in this file (zero pooled variance => 0 as the library '
                'documents by construction; paired zero variance follows IEEE: +-inf exceeds, nan does not)',
@@ -35,6 +35,7 @@ PROFILES = {
     'D': ([3, 4, 5], [1, 2, 3]),          # constant paired difference (zero variance of the difference)
     'Q': ([5, 1, 5], [6, 2, 1]),          # effect only under the cross grouping {x0,y0} | {x1,y1}
     '0': ([2, 3, 2.5], [2.5, 2, 3]),      # nothing, with variance
+    'M': ([5, float('nan'), 7], [1, 2, 3]),   # a missing measurement: the statistic is NaN and NaN exceeds nothing
     'E': ([13, 19, 16], [2, 10, 6]),      # (2,2) design: t = 10/5 = 2.0 exactly, so a threshold of 2.0 sits ON the statistic
 }
 THRESH = (0.5, 3.0)
@@ -88,6 +89,12 @@ def catalogue(thorough):
                              'k': 1, 'dtype': dt})
                 cfgs.append({'n': 3, 'profile': prof, 'nx': 3, 'ny': 3, 'thresh': 0.5, 'tail': tail, 'paired': True,
                              'k': 1, 'dtype': dt})
+    # a missing (NaN) measurement on one connection
+    for prof in ('PMP', 'MPN', 'PPM', 'MMP', 'PMZ', 'NMS'):
+        for tail in TAILS:
+            for thr in THRESH:
+                cfgs.append({'n': 3, 'profile': prof, 'nx': 2, 'ny': 3, 'thresh': thr, 'tail': tail, 'paired': False, 'k': 1})
+                cfgs.append({'n': 3, 'profile': prof, 'nx': 3, 'ny': 3, 'thresh': thr, 'tail': tail, 'paired': True, 'k': 1})
     # the unit the weights are expressed in (data multiplied by 2^-60 / 2^60): the statistic is scale-free
     for prof in ('PPP', 'PNZ', 'PSC', 'NNS', 'SSZ', 'PZC'):
         for sc in (-60, 60):
